@@ -36,6 +36,11 @@ class FakeStdout(anyio.abc.ByteReceiveStream):
                 raise ClosedResourceError
             if c.out_pieces:
                 piece = c.out_pieces.popleft()
+                if getattr(c, "coalesce_reads", False):
+                    # like a real pipe: one read returns everything that is pending (up to max_bytes), however many writes produced it
+                    while c.out_pieces:
+                        piece += c.out_pieces.popleft()
+                        c.sim.probe("read_coalesced_several_writes")
                 if len(piece) > max_bytes:
                     c.out_pieces.appendleft(piece[max_bytes:])
                     piece = piece[:max_bytes]
@@ -143,6 +148,11 @@ class FakeChild:
         self._slow_timer = None
         self.read_paused = False
         self.lines_in: List[bytes] = []
+        # stderr: cfg 'stderr_chatter' = bytes of diagnostics the child writes before it answers anything.  If the parent gave it a pipe
+        # and nobody reads that pipe, the child blocks in write(2) once the pipe (64 KiB) is full and never gets to answer.
+        self.stderr_disposition = (kwargs or {}).get("_stderr_disposition", "inherited-or-file")
+        self.stderr_read_by_parent = False
+        self.stderr_merged = 0
 
     # ---- stdout side (child -> parent) -----------------------------------------------
     def write_stdout(self, pieces):
@@ -218,10 +228,22 @@ class FakeChild:
         if not self.in_buf and self.parent_closed_stdin and not self.stdin_eof_seen:
             self._see_stdin_eof()
 
+    def blocked_on_stderr(self) -> bool:
+        return (self.cfg.get("stderr_chatter", 0) > 65536 and self.stderr_disposition == "pipe" and not self.stderr_read_by_parent)
+
     def _on_line(self, line: bytes):
         r: Optional[Callable] = self.cfg.get("responder")
         if r is None:
             return
+        if self.cfg.get("stderr_chatter"):
+            if self.blocked_on_stderr():
+                self.sim.rec("child", "blocked-writing-stderr", None)
+                self.sim.probe("child_blocked_on_unread_stderr_pipe")
+                return
+            if self.stderr_disposition == "stdout" and not self.stderr_merged:
+                # diagnostics merged into the protocol stream
+                self.stderr_merged = 1
+                self.write_stdout([b"diagnostic noise on stderr\n" * 4])
         for delay, pieces in r(line) or []:
             if delay <= 0:
                 self.write_stdout(pieces)
@@ -306,7 +328,19 @@ class FakeProcess:
 
     @property
     def stderr(self):
-        return None
+        if self.child.stderr_disposition != "pipe":
+            return None
+        child = self.child
+
+        class _Err(anyio.abc.ByteReceiveStream):
+            async def receive(self, max_bytes: int = 65536) -> bytes:
+                child.stderr_read_by_parent = True
+                await anyio.sleep_forever()
+                return b""
+
+            async def aclose(self) -> None:
+                await checkpoint()
+        return _Err()
 
     async def wait(self) -> int:
         await self.child._exited.wait()
@@ -355,7 +389,10 @@ class ProcessFactory:
         await checkpoint()
         idx = len(self.spawns)
         argv = list(command) if isinstance(command, (list, tuple)) else command
-        rec = {"argv": argv, "env": dict(env) if env is not None else None, "kwargs": {k: repr(v) for k, v in kwargs.items()},
+        import subprocess as _sp
+        disp = "pipe" if stderr == _sp.PIPE else ("devnull" if stderr == _sp.DEVNULL else ("stdout" if stderr == _sp.STDOUT else "inherited-or-file"))
+        kwargs = dict(kwargs, _stderr_disposition=disp)
+        rec = {"argv": argv, "env": dict(env) if env is not None else None, "kwargs": {k: repr(v) for k, v in kwargs.items()}, "stderr": disp,
                "t": self.sim.now(), "eseq": self.sim.rec("proc", "spawn", None)}
         self.spawns.append(rec)
         cfg = self.make_cfg(idx, argv, env)
